@@ -73,12 +73,13 @@ structure LGraph where
 structure Cfg where
   onDemand : Bool := false
   skipBoundLabels : Bool := false
-  /-- `true` (default) models the code as it is since /repo commit 7ab5f0c ("backtrace only uses the
-  top of the closure trace for free variables of that closure"): the FreeVarNode case uses the
-  closure on top of ClosureTrace only if it is a closure of the free variable's own function.
-  `false` is the code BEFORE that repair (findings F15, F15b, F16), kept so that the old
-  counterexample remains a theorem about the unrepaired variant. -/
-  closureCheck : Bool := true
+  /-- NOT in the current code (`false`, the default, models the code as it is): the repair proposed
+  in /verif/fixes/C03_closure_trace_mismatch.patch — the FreeVarNode case uses the closure on top of
+  ClosureTrace only if it is a closure of the free variable's own function. It was applied as /repo
+  commit 7ab5f0c and reverted by 63e2416 (the repaired traversal explores far more contexts on
+  programs with bound-method closures); the flag is kept so that `trace_wellformed_fixed` states what
+  such a repair restores. -/
+  closureCheck : Bool := false
   deriving Repr, Inhabited
 
 def LGraph.node (G : LGraph) (i : Nat) : Node := G.nodes.getD i default
